@@ -31,6 +31,7 @@ type c10cfg struct {
 	script             map[string]int // failures before success; -1 = forever
 	ctx                string         // none expired 5ms 3s 10s
 	ignoreCtx, ctxLike bool
+	expiry             time.Duration // StoreConfig.ExpiryAge (declared secrets never expire, however old the cache's stamps)
 }
 
 func (c c10cfg) String() string {
@@ -40,7 +41,11 @@ func (c c10cfg) String() string {
 			sc = append(sc, fmt.Sprintf("%s:fail^%d", n, k))
 		}
 	}
-	return fmt.Sprintf("list=%s cache=%s script=[%s] ctx=%s service-ignores-ctx=%v failures-look-like-timeouts=%v", c.list, c.cache, strings.Join(sc, " "), c.ctx, c.ignoreCtx, c.ctxLike)
+	ex := ""
+	if c.expiry > 0 {
+		ex = fmt.Sprintf(" expiry-age=%v", c.expiry)
+	}
+	return fmt.Sprintf("list=%s cache=%s script=[%s] ctx=%s service-ignores-ctx=%v failures-look-like-timeouts=%v%s", c.list, c.cache, strings.Join(sc, " "), c.ctx, c.ignoreCtx, c.ctxLike, ex)
 }
 
 func roundTime(r int) time.Duration {
@@ -162,7 +167,7 @@ func runC10(t *testing.T, c c10cfg) (out c10out) {
 			ctx, cancel = context.WithTimeout(ctx, 10*time.Second)
 		}
 		defer cancel()
-		cfg := setec.StoreConfig{Client: svc, Cache: cache, PollInterval: -1, Logf: func(string, ...any) {}}
+		cfg := setec.StoreConfig{Client: svc, Cache: cache, PollInterval: -1, ExpiryAge: c.expiry, Logf: func(string, ...any) {}}
 		var vab sAB
 		var va sA
 		var vaba sABA
@@ -357,7 +362,7 @@ func checkC10(t *testing.T, env *report.Env, rep *report.Report) {
 		"service scripts per secret: success after k failures for k in {0,1,2,3,12,13,14}, or failure forever; failures are plain errors or look like timeouts that are not the caller's; the service either honours the caller's context or keeps answering from its script after it ended",
 	}
 	sec := rep.Add(&report.Section{Name: "construction-all-configurations", Engine: "enum", Exhaustive: true, Extra: map[string]int64{}, Outcomes: map[string]int64{},
-		Rule: "declared-list shape(8, incl. names repeated across Secrets and struct tags) × cache state(10) × per-secret failure script(8 each) × context(5) × service error style(4), each one NewStore execution under virtual time against the retry model; non-trivial = configurations in which at least one secret has to be fetched and at least one request fails"})
+		Rule: "declared-list shape(8, incl. names repeated across Secrets and struct tags) × cache state(10; those with valid entries also with an expiry age configured) × per-secret failure script(8 each) × context(5) × service error style(4), each one NewStore execution under virtual time against the retry model; non-trivial = configurations in which at least one secret has to be fetched and at least one request fails"})
 	lists := []struct {
 		name    string
 		names   []string
@@ -391,25 +396,27 @@ func checkC10(t *testing.T, env *report.Env, rep *report.Report) {
 							if !env.Mine(idx) {
 								continue
 							}
-							c := c10cfg{list: l.name, names: l.names, structs: l.structs, mixed: l.mixed, cache: ca, script: map[string]int{"a": sa}, ctx: cx, ignoreCtx: mode&1 != 0, ctxLike: mode&2 != 0}
-							if two {
-								c.script["b"] = sb
-							}
-							o := runC10(t, c)
-							sec.Evaluations++
-							if sa != 0 || sb != 0 {
-								sec.Nontrivial++
-							}
-							if o.err != nil {
-								sec.Outcomes["error"]++
-							} else {
-								sec.Outcomes["ok"]++
-							}
-							if kind, msg := c10Check(c, o); kind != "" {
-								rep.Violate(sec.Name, "construct/"+kind+": "+c.String(), c.String()+": "+msg, map[string]any{"config": c.String()})
-							}
-							if len(sec.Samples) < 3 && sa == 13 && cx == "10s" {
-								sec.Samples = append(sec.Samples, map[string]any{"config": c.String(), "elapsed": o.elapsed.String(), "requests_a": len(o.calls["a"]), "err": fmt.Sprint(o.err)})
+							for _, expiry := range expiries(ca) {
+								c := c10cfg{list: l.name, names: l.names, structs: l.structs, mixed: l.mixed, cache: ca, script: map[string]int{"a": sa}, ctx: cx, ignoreCtx: mode&1 != 0, ctxLike: mode&2 != 0, expiry: expiry}
+								if two {
+									c.script["b"] = sb
+								}
+								o := runC10(t, c)
+								sec.Evaluations++
+								if sa != 0 || sb != 0 {
+									sec.Nontrivial++
+								}
+								if o.err != nil {
+									sec.Outcomes["error"]++
+								} else {
+									sec.Outcomes["ok"]++
+								}
+								if kind, msg := c10Check(c, o); kind != "" {
+									rep.Violate(sec.Name, "construct/"+kind+": "+c.String(), c.String()+": "+msg, map[string]any{"config": c.String()})
+								}
+								if len(sec.Samples) < 3 && sa == 13 && cx == "10s" {
+									sec.Samples = append(sec.Samples, map[string]any{"config": c.String(), "elapsed": o.elapsed.String(), "requests_a": len(o.calls["a"]), "err": fmt.Sprint(o.err)})
+								}
 							}
 						}
 					}
@@ -550,4 +557,14 @@ func c10Prefixes(t *testing.T, rep *report.Report) {
 		}
 	}
 	sec.States, sec.Transitions = sec.Evaluations, sec.Evaluations
+}
+
+// expiries: with a cache that holds valid entries the configuration also runs with an expiry age set
+// (the cache's last-access stamps are ancient: declared secrets must be taken from it all the same).
+func expiries(cache string) []time.Duration {
+	switch cache {
+	case "partial", "complete", "stale":
+		return []time.Duration{0, 100 * time.Second}
+	}
+	return []time.Duration{0}
 }
